@@ -48,3 +48,26 @@ def differential(p):
         if not g.is_good: bad.append({"trailer": m.hex()})
     return {"name": "differential run of compute_checksum/update/is_good against the bit-serial definition", "bound": f"{n} random byte strings (length <= 300) and windows", "evaluations": ev,
             "distinct_nontrivial": len([d for d in distinct if len(d[0]) > 0]), "violations": bad[:3]}
+
+def history_search(p):
+    """bounded search over call histories of one object (update / is_good / checksum observed at arbitrary points) for a violation of the
+    property statement; used to confirm models that depend on a field the contract does not constrain"""
+    rnd = random.Random(p.get("seed", 0)); ev = 0
+    for trial in range(p.get("n", 3000)):
+        ln = rnd.choice([0, 1, 2, 3, 5, 9, 20]); body = bytes(rnd.randrange(256) for _ in range(ln)); fcs = sp.fcs16(body)
+        msg = body + (bytes([fcs & 0xFF, fcs >> 8]) if rnd.random() < 0.6 else bytes(rnd.randrange(256) for _ in range(2)))
+        if rnd.random() < 0.4:      # a good message followed by more octets, or two good messages back to back
+            more = bytes(rnd.randrange(256) for _ in range(rnd.choice([1, 2, 4]))); f2 = sp.fcs16(msg + more)
+            msg = msg + more + (bytes([f2 & 0xFF, f2 >> 8]) if rnd.random() < 0.5 else b"")
+        f = F(); hist = []
+        for k in range(len(msg) + 1):
+            if rnd.random() < 0.5 or k == len(msg):
+                ev += 1; pre = msg[:k]; reg = sp.fcs_fold(pre)
+                good = len(pre) >= 2 and pre[-2] == (sp.fcs16(pre[:-2]) & 0xFF) and pre[-1] == (sp.fcs16(pre[:-2]) >> 8)
+                got_good = f.is_good; got_sum = f.checksum; hist.append(f"is_good@{k}")
+                if got_good != good or got_good != (reg == 0xF0B8) or got_sum != (reg ^ 0xFFFF):
+                    return {"violated": True, "detail": {"message": msg.hex(), "history": hist, "octets_fed": k, "is_good": got_good, "expected_is_good": good, "checksum": got_sum, "expected_checksum": reg ^ 0xFFFF}}
+            if k < len(msg):
+                r = f.update(msg[k])
+                if r != sp.fcs_fold(msg[:k + 1]): return {"violated": True, "detail": {"message": msg.hex(), "history": hist, "update_returned": r, "expected": sp.fcs_fold(msg[:k + 1])}}
+    return {"violated": False, "evaluations": ev, "detail": "no history of update()/is_good/checksum calls breaks the statement"}
